@@ -80,3 +80,31 @@ claim('C12', 'other',
       'attribute (swap-and-drain reaching definitions), trash removal implies close, created => published-or-closed on all paths incl. exceptional, '
       'publication re-checked under the pool lock',
       'CFG dataflow with exceptional edges (typestate created/published/closed) + reaching definitions', _TB, 'DESIGN.md section 5 C12')
+
+_RF = 'DESIGN.md section 5 C13-C19'
+claim('C13', 'other',
+      'static analysis: every close() of a trashed / over-threshold connection is dominated by the drained predicate under connection.lock, the trash '
+      'check is reached for orphaned and normal returns, _is_replacing test-and-set/reset, borrow avoids a replaced-and-closed connection, closed set of '
+      'close sites', 'CFG dataflow with branch facts + lock regions + who-may-call table', _TB, _RF)
+claim('C14', 'other',
+      'static analysis: exactly-one-outcome on every path of the response handlers (path-insensitive count via dataflow over finite effect tuples), '
+      'no-send-after-terminal typestate, sibling shape of the terminal setters and callback registration, result() fields, speculative send flag, '
+      'once-latch contract (known finding)', 'CFG typestate dataflow over outcome effects + sibling cross-check', _TB, _RF)
+claim('C15', 'other',
+      'static analysis of the timer chain: _start_timer arms on every finite-timeout path, timer callbacks finalise or re-arm on every path, every '
+      '(page) entry point frees the slot and restarts the clock before arming, deadline formula by term collection. The clock itself is not decided',
+      'CFG must-reach dataflow with branch facts', _TB, _RF)
+claim('C16', 'other',
+      'static analysis: error-class -> policy-method dispatch table with argument roles, decision table of _handle_retry_decision enumerated over its '
+      'paths, three-valued guard on the chosen consistency level (0 is a level), host choice of _retry_task, idempotence guard of speculative plans',
+      'decision-table enumeration + three-valued guard domain', _TB, _RF)
+claim('C17', 'other',
+      'static analysis: closed writer set of query_plan with one-shot-iterator contract, single resuming consumer, must-record dataflow in _query, '
+      'exhaustion report after the loop, attempted-host ordering', 'who-may-write contract + CFG dataflow', _TB, _RF)
+claim('C18', 'other',
+      'static analysis (narrow): single writer of the paging state, ordering of result-describing writes before the terminal outcome call, guards and '
+      'ordering in start_fetching_next_page and ResultSet. Row concatenation over page sequences is not decided',
+      'who-may-write + CFG ordering dataflow', _TB, _RF)
+claim('C19', 'other',
+      'static analysis: shape of the UNPREPARED arm (query text, keyspace iff keyspace flag, same host/connection/pool), terminal arms, no-send-after-'
+      'terminal in _execute_after_prepare, re-send to the same host with fallback', 'CFG typestate dataflow + argument-role checks', _TB, _RF)
